@@ -27,7 +27,7 @@ RULE = (
     "multiway histogram recomputed by definition. Non-trivial: >=1 intersection block with >=3 variants and >=1 error; distinct "
     "by hash of the input files."
 )
-REQUIRED_COUNTERS = ["runs_ok", "pairwise_rows_checked", "blocks_checked", "permutation_reruns", "longest_block_files_checked"]
+REQUIRED_COUNTERS = ["runs_ok", "pairwise_rows_checked", "blocks_checked", "permutation_reruns", "longest_block_files_checked", "poly_blocks_checked", "poly_relabellings_checked"]
 ASSUMPTIONS = [
     "for ploidy > 2 only the minimal SUM of the joint switch/flip objective is defined; the reported split is not judged",
     "largest block = first intersection block (in order of first variant) of maximal size",
@@ -37,8 +37,65 @@ SAN_OK = True
 
 def lanes(tier):
     if tier == "quick":
-        return [("plain", "plain", 200), ("san", "san", 40)]
-    return [("plain", "plain", 3000), ("san", "san", 400)]
+        return [("plain", "plain", 200), ("san", "san", 40), ("poly", "plain", 160), ("polysan", "san", 32)]
+    return [("plain", "plain", 3000), ("san", "san", 400), ("poly", "plain", 4000), ("polysan", "san", 400)]
+
+
+def run_poly_direct(rng, counters):
+    """whatshap.cli.compare.compare_block on random noisy polyploid blocks vs. the definitional DP, plus relabelling."""
+    from whatshap.cli.compare import compare_block
+
+    P = rng.choice([3, 4, 4, 4])
+    n = rng.randint(2, 9 if P == 3 else 8)
+    truth = [[rng.randint(0, 1) for _ in range(n)] for _ in range(P)]
+    h1 = ["".join(str(x) for x in row) for row in truth]
+    # phasing0 = truth with switches (permutation changes), flips and noise
+    perm = list(range(P))
+    rng.shuffle(perm)
+    cols = []
+    noise = rng.choice([0.0, 0.05, 0.15, 0.3])
+    for i in range(n):
+        if rng.random() < rng.choice([0.1, 0.3, 0.5]):
+            x, y = rng.sample(range(P), 2)
+            perm[x], perm[y] = perm[y], perm[x]
+        col = [truth[perm[h]][i] for h in range(P)]
+        for h in range(P):
+            if rng.random() < noise:
+                col[h] = 1 - col[h]
+        cols.append(col)
+    h0 = ["".join(str(cols[i][h]) for i in range(n)) for h in range(P)]
+    exp = o_block_poly(h0, h1, P)
+    got = compare_block(h0, h1)
+    counters["poly_blocks_checked"] = counters.get("poly_blocks_checked", 0) + 1
+    bad = []
+    if abs(got.hamming - exp["hamming"]) > 1e-9:
+        bad.append("hamming %s vs definition %s" % (got.hamming, exp["hamming"]))
+    if got.diff_genotypes != exp["diff_gt"]:
+        bad.append("diff_genotypes %s vs %s" % (got.diff_genotypes, exp["diff_gt"]))
+    if exp["switches"] is not None and abs(got.switches - exp["switches"]) > 1e-9:
+        bad.append("switches %s vs minimal switch-only cost %s on %d genotype-matching positions" % (got.switches, exp["switches"], exp["n_match"]))
+    js = got.switch_flips.switches + got.switch_flips.flips
+    if abs(js - exp["joint_sum"]) > 1e-9:
+        bad.append("switch/flip %s sums to %s, minimal joint cost %s" % (got.switch_flips, js, exp["joint_sum"]))
+    viol = []
+    if bad:
+        viol.append({"mech": "poly-block-mismatch", "msg": "ploidy %d block %r vs %r: %s" % (P, h0, h1, "; ".join(bad)), "data": {"h0": h0, "h1": h1}})
+    else:
+        # relabelling: any order of the haplotypes of either phasing gives the same numbers
+        for _ in range(3):
+            a = h0[:]
+            b = h1[:]
+            rng.shuffle(a)
+            rng.shuffle(b)
+            g2 = compare_block(a, b)
+            counters["poly_relabellings_checked"] = counters.get("poly_relabellings_checked", 0) + 1
+            if (abs(g2.hamming - got.hamming) > 1e-9 or abs(g2.switches - got.switches) > 1e-9
+                    or abs(g2.switch_flips.switches + g2.switch_flips.flips - js) > 1e-9):
+                viol.append({"mech": "poly-depends-on-haplotype-order", "msg": "ploidy %d: %r vs %r gives %r, relabelled %r vs %r gives %r" % (P, h0, h1, got, a, b, g2),
+                             "data": {"h0": h0, "h1": h1, "a": a, "b": b}})
+                break
+    nt = exp["joint_sum"] > 0 and n >= 3
+    return viol, nt, (P, tuple(h0), tuple(h1))
 
 
 # ------------------------------------------------------------------ generator
@@ -478,6 +535,16 @@ def run_case(idx, rng, tier, lane):
     keys = set()
     viol = []
     sample = None
+    if lane.startswith("poly"):
+        for j in range(60 if lane == "poly" else 30):
+            v, nt, key = run_poly_direct(rng, counters)
+            viol += v
+            if nt:
+                keys.add(hashlib.sha1(repr(key).encode()).hexdigest()[:16])
+            sample = {"ploidy": key[0], "phasing0": key[1], "phasing1": key[2]}
+        seen = set()
+        uniq = [x for x in viol if not (x["mech"] in seen or seen.add(x["mech"]))]
+        return {"nontrivial": bool(keys), "key": sorted(keys), "violations": uniq, "counters": counters, "sample": sample, "case": None}
     for j in range(6 if lane == "plain" else 4):
         case = gen_case(rng)
         tmp = tempfile.mkdtemp(prefix="c11-", dir=os.environ.get("WV_SCRATCH"))
